@@ -307,6 +307,48 @@ func c13CheckEmitted(c c13Emit) engine.Result {
 			if ref.CRC32MPEG2(enc) != 0 {
 				res.Failf("emitted-section|splice_info_section|crc-residue", "section_length %d: CRC of the encoded section is %08x, want 0", c.Seed, ref.CRC32MPEG2(enc))
 			}
+		case "pmt-keep-first-k":
+			// a table of 60 (c.Seed%2==1: 200) descriptor-less streams filtered to its first k streams, for
+			// every k: the rebuilt section runs through every length (buffer growth points included)
+			n := 60
+			if c.Seed%2 == 1 {
+				n = 200
+			}
+			sec := ref.PMTSection{Program: 1, Version: 2, CurrentNext: true, PCRPID: 0x31}
+			for i := 0; i < n; i++ {
+				sec.Streams = append(sec.Streams, ref.Stream{Type: []byte{0x1B, 0x0F, 0x86}[i%3], PID: 0x31 + i})
+			}
+			payload := append(ref.Pointer(c.Seed/2*7), sec.Bytes()...)
+			var pkts []*packet.Packet
+			for i, rest := 0, payload; len(rest) > 0; i++ {
+				k := min(184, len(rest))
+				p := packet.Packet(ref.CarryPayload(0x64, i == 0, byte(i), ref.PadPayload(rest[:k], 184)))
+				pkts = append(pkts, &p)
+				rest = rest[k:]
+			}
+			pids := c06PIDList(&sec)
+			for k := 1; k <= n; k++ {
+				out, _ := psi.FilterPMTPacketsToPids(pkts, pids[:k])
+				var pay []byte
+				for _, o := range out {
+					b, _ := packet.Payload(o)
+					pay = append(pay, b...)
+				}
+				start := 1 + c.Seed/2*7
+				if len(pay) < start+3 {
+					res.Failf("emitted-section|filtered-pmt|truncated", "keep %d of %d: %d payload bytes", k, n, len(pay))
+					continue
+				}
+				sl := int(pay[start+1]&0x0F)<<8 | int(pay[start+2])
+				if start+3+sl > len(pay) {
+					res.Failf("emitted-section|filtered-pmt|truncated", "keep %d of %d: section_length %d does not fit the emitted payload", k, n, sl)
+					continue
+				}
+				res.Evals++
+				if crc := ref.CRC32MPEG2(pay[start : start+3+sl]); crc != 0 {
+					res.Failf("emitted-section|filtered-pmt|crc-residue", "keep the first %d of %d streams: CRC of the filtered section (section_length %d) is %08x, want 0", k, n, sl, crc)
+				}
+			}
 		case "pmt":
 			seeds := c05SeedPools["pmt"]
 			if c.Seed >= len(seeds) {
@@ -447,13 +489,16 @@ func init() {
 			},
 			&engine.Enum[c13Emit]{
 				Name: "emitted-sections",
-				Rule: "every captured/constructed SCTE-35 section of the seed pool decoded and re-encoded with two tier values x alignment stuffing {0,1,4}, SCTE-35 sections with section_length 900..4093 (around every multiple of 1024), and every PMT of the seed pool filtered to each prefix of its PID list under 5 packetisations: the reference CRC of every emitted section must be zero (the exhaustive versions of this clause live in C09 and C14)",
+				Rule: "every captured/constructed SCTE-35 section of the seed pool decoded and re-encoded with two tier values x alignment stuffing {0,1,4}, SCTE-35 sections with section_length 900..4093 (around every multiple of 1024), every PMT of the seed pool filtered to each prefix of its PID list under 5 packetisations, and tables of 60 and 200 descriptor-less streams (pointer_field 0 and 7) filtered to their first k streams for every k: the reference CRC of every emitted section must be zero (the exhaustive versions of this clause live in C09 and C14)",
 				Gen: func(r *engine.Run, emit func(c13Emit)) {
 					for i := range c05SeedPools["scte35"] {
 						emit(c13Emit{"scte35", i})
 					}
 					for i := range c05SeedPools["pmt"] {
 						emit(c13Emit{"pmt", i})
+					}
+					for i := 0; i < 4; i++ {
+						emit(c13Emit{"pmt-keep-first-k", i})
 					}
 					for _, t := range []int{900, 1000, 1022, 1023, 1024, 1025, 1040, 1100, 2047, 2048, 2049, 3000, 3072, 4093} {
 						emit(c13Emit{"scte35-long", t})
